@@ -321,8 +321,14 @@ class GraphInitializers(collections.UserDict[str, "_core.Value"]):
     def update(self, other=(), /, **kwargs) -> None:
         """Set several initializers. Every entry is checked before any is stored."""
         items = dict(other, **kwargs)
+        # An unnamed value takes the name of the first key it is stored under
+        pending_names: dict[int, str] = {}
         for key, value in items.items():
             self._check_item(key, value)
+            if not value.name and pending_names.setdefault(id(value), key) != key:
+                raise ValueError(
+                    f"Key '{key}' does not match the name of the value '{pending_names[id(value)]}'. Please use the value.name as the key."
+                )
         for key, value in items.items():
             self[key] = value
 
